@@ -258,6 +258,33 @@ def run(ctx):
             ctx.violation("shared_detector/detector_modified", {"theory": name, "call": f.__name__, "n": n})
             break
         ctx.trace_ok()
+    # ... and sharing one THEORY object while the same particle sits at other heights and the points lie
+    # in other planes: every value must be what a pristine theory object gives
+    import copy as _copy
+    def pristine(name):          # a theory object nothing has been calculated with
+        return {n_: t_ for n_, _s, t_ in theories()}[name]
+    for name, scat, theory in th:
+        if theory is None or not hasattr(scat, "center") or scat.center is None:
+            continue
+        cx, cy, cz = [float(v) for v in scat.center]
+        plan = [(cz, 0.0), (cz - 1.3, 0.0), (cz, 0.41), (cz - 1.3, 0.41), (cz, 0.0)]
+        for n_, (h_, dz_) in enumerate(plan):
+            ctx.case(("shared_theory", name, n_), nontrivial=n_ > 0)
+            s2 = scat.translated(0.0, 0.0, h_ - cz)
+            d2 = det.assign_coords(z=det.z.values + dz_)
+            kw = opts_for(name, theory)
+            kwp = dict(kw, theory=pristine(name))
+            try:
+                a = calc_holo(d2, s2, **kw).values
+                b = calc_holo(d2, s2, **kwp).values
+            except Exception as ex:
+                ctx.violation("shared_theory/exception", {"theory": name, "step": n_, "exc": repr(ex)[:200]})
+                break
+            if not np.allclose(a, b, rtol=0, atol=1e-12):
+                ctx.violation("shared_theory/value_depends_on_earlier_calls", {"theory": name, "step": n_, "height": h_, "plane": dz_,
+                                                                              "defect": float(np.max(np.abs(a - b)))})
+                break
+            ctx.trace_ok()
     if not quick:
         # the repository's own test-suite under the recorder: Frame and Deterministic on every
         # public call those tests make (spec/Session.tla)
